@@ -61,7 +61,7 @@ ASSUMPTIONS = [
     "semantic agreement is refutation only: a certain numeric / boolean disagreement at a concrete point is a violation, "
     "undecided evaluations (transcendental values, non-numeric atoms) are inconclusive",
     "auto's norm / solve caches are cleared before every case so that cases are independent and replayable",
-    "a limit of 12 s of user CPU time per conversion call (40 s per proof check) guards against divergence; hits are inconclusive, and a shard stops exploring after 7 of them",
+    "a limit of 30 s of user CPU time per conversion call (60 s per proof check; the slowest generated case needs about 1 s) guards against divergence; hits are inconclusive, and a shard stops exploring after 4 of them",
 ]
 SHRINK_SECONDS = 25
 SHRINK_BUDGET = 200
@@ -207,6 +207,11 @@ def self_test():
     trunc = (binop('plus', NAT, binop('minus', NAT, n, numeral(NAT, 3)), numeral(NAT, 3)), n)
     if sem_check(_dec(trunc[0]), _dec(trunc[1]), [], 1)[0] != 'refuted':
         raise SelfTestError('semantic oracle misses truncated subtraction')
+    # a sequent with a false hypothesis is not refuted by a disagreement of its sides
+    z1 = binop('plus', NAT, numeral(NAT, 0), app(C('Suc', fun(NAT, NAT)), numeral(NAT, 0)))
+    hyp = eq(NAT, z1, numeral(NAT, 0))
+    if sem_check(_dec(app(C('Suc', fun(NAT, NAT)), z1)), _dec(app(C('Suc', fun(NAT, NAT)), numeral(NAT, 0))), [_dec(hyp)], 1)[0] == 'refuted':
+        raise SelfTestError('semantic oracle ignores hypotheses')
     # the whole per-case check accepts a correct conversion and rejects doctored ones
     H = harness.Ctx(ID)
     case = {'kind': 'conv', 'conv': 'selftest.identity', 'theory': 'nat', 't': L.render(e1, 'nat'), 'conds': []}
@@ -497,7 +502,7 @@ def sem_check(lhs, rhs, hyps, seed, pure_lambda=False):
             return 'agree', 1
     # fun_upd tables
     sl = repr(rl)
-    if "'fun_upd'" in sl or T == 'nat':
+    if ("'fun_upd'" in sl or T == 'nat') and not hyps:
         vl, vr = L.fu_value(rl), L.fu_value(rr)
         if vl[0] == 'num' and vr[0] == 'num':
             if vl != vr:
@@ -565,7 +570,7 @@ _TIMEOUTS = [0]
 def apply_conv(cv, t, H, label):
     """get_proof_term under a timer: ('ok', pt) | ('fail', exception name) | ('inconc', reason)."""
     try:
-        with cpu_limit(12):
+        with cpu_limit(30):
             try:
                 return 'ok', cv.get_proof_term(t)
             except Timeout:
@@ -655,7 +660,7 @@ def check_conv(case, H):
         # ---- checker
         rpt = _K['report'].ProofReport()
         try:
-            with cpu_limit(40):
+            with cpu_limit(60):
                 try:
                     res = theory.thy.check_proof(pt.export(), rpt)
                     err = None
@@ -1603,7 +1608,7 @@ def run_shard(desc, seed, tier, H):
     _TIMEOUTS[0] = 0
 
     def body(case):
-        if _TIMEOUTS[0] > 6:
+        if _TIMEOUTS[0] > 3:
             H.note('skipped-after-timeouts:%s' % desc['group'])
             return
         try:
